@@ -141,7 +141,7 @@ impl<S: BuildHasher + Clone + 'static> PolicyProcessor<S> {
                 crate::verif::sched::point("policy:before_apply");
                 let mut inner = self.inner.lock();
                 #[cfg(transparencies_stretto_verif)]
-                crate::verif::applied(&items);
+                crate::verif::applied(&self.verif_guard, &items);
                 inner.admit.increments(items);
             }
             #[cfg(feature = "log")]
